@@ -3,8 +3,9 @@ package main
 // Generator "LexAdvance" (property C21): the position bookkeeping of the template layer of
 // internal/compiler/lexer.go as a table of *segments*.
 //
-// The main loop of scan() (`LOOP: for p < len(l.src) { … }`) and scanCodeBlock are executed
-// symbolically, path by path. Along a path the generator records
+// The main loop of scan() (`LOOP: for p < len(l.src) { … }`), scanCodeBlock, scanTag and scanAttribute
+// (a loop inside them: every path through one iteration, from a fresh origin) and the byte walks of
+// lexComment, skipRawContent and CDATA sections are executed symbolically, path by path. Along a path the generator records
 //
 //	guard    what the conditions taken say about the bytes at fixed offsets from the p the
 //	         iteration started with: `c == '\\'`, `l.src[p+1] == quote`, `isSpace(c)`,
@@ -22,7 +23,8 @@ package main
 // bytes the segment consumed: every place where the lexer steps over a byte without looking
 // at it needs a guard that pins the byte, or the theorem fails.
 //
-// `p += s` after `_, s := utf8.DecodeRune(l.src[p:])` followed by `l.column++` is a rune step:
+// `p += s` after `_, s := utf8.DecodeRune(l.src[p:])` with `l.column++` directly before or after it, and
+// `p += size - 1` followed by `l.column++` and the loop's `p++`, are rune steps:
 // listed apart with its guard (the obligation is that its first byte is not a newline).
 // Every assignment to `quote` is listed with the guard of its right-hand side.
 //
@@ -177,7 +179,7 @@ type laGen struct {
 	bvars   map[string]string        // []byte("…") variables
 	joined  map[string]bool
 	next    ast.Stmt // the statement after the one being executed, in the same block
-	pv      string // the position variable of the code being executed: p, or the index of a byte walk
+	pv      string   // the position variable of the code being executed: p, or the index of a byte walk
 	err     error
 }
 
